@@ -93,7 +93,9 @@ where
     // IEEE Trans. Inf. Theory.
     let t = err_len / 2;
     let v = lambda_coeff.len() - 1;
-    for j in t..=2 * t - v - 1 {
+    // For an odd number of error codewords the last syndrome is not used when
+    // computing the locator polynomial, it must be checked here as well.
+    for j in t..=err_len - v - 1 {
         debug_assert!(syndromes[j..].len() >= lambda_coeff.len());
         let t_j: GF = syndromes[j..]
             .iter()
